@@ -99,10 +99,18 @@ def run_case(case) -> tuple[str, str] | None:
     seq = [T.from_json(s) for s in case["seq"]]
     if case.get("continue"):
         return run_continue(case, seq)
+    declared = case.get("declared")
     try:
         opts = DR.make_options(cls, preset, case.get("frame_size", 250), True,
-                               generalized=case.get("generalized", True))
-        if api == "generic":
+                               generalized=case.get("generalized", True), ns=bool(declared))
+        if declared:
+            # a container whose namespace bindings are declared in the stream first
+            binds = [("d", "http://declared.example/ns#")]
+            if api == "generic":
+                data = DR.g_write(seq, cls, opts, "stream_frames_sink", bindings=binds)
+            else:
+                data = DR.r_write(seq, cls, opts, "graph_serialize_stream", bindings=binds)
+        elif api == "generic":
             data = DR.g_write(seq, cls, opts, "stream_frames_gen")
         else:
             data = DR.r_write(seq, cls, opts, "stream_frames_gen")
@@ -114,7 +122,7 @@ def run_case(case) -> tuple[str, str] | None:
     except (jspec.SpecViolation, jwire.WireError) as e:
         return "undecodable", f"wrote a stream the reference decoder rejects: {e}"
     got = [T.norm_st(s) for s in jspec.statements(per)]
-    if api == "rdflib" and cls == "graph":
+    if api == "rdflib" and (cls == "graph" or declared):
         # this rdflib path regroups the quads into a Dataset: rdflib's order, not pyjelly's
         got, expect = sorted(set(got), key=repr), sorted(set(expect), key=repr)
     if got != expect:
@@ -240,6 +248,15 @@ def shard(job) -> dict:
                                         acc.violation({"fail": r3[0], "continue": True},
                                                       f"{r3[1]} preset={preset} api={api} cls={cls}",
                                                       c3)
+                            if not hist and cls != "graph" and kind == "flat":
+                                cd = {**case, "declared": True}
+                                acc.evals += 1
+                                acc.nontrivial += 1
+                                rd = run_case(cd)
+                                if rd is not None:
+                                    acc.violation({"fail": rd[0], "declared": True},
+                                                  f"{rd[1]} (bindings declared first) "
+                                                  f"preset={preset} api={api} cls={cls}", cd)
                             acc.evals += 1
                             acc.nontrivial += 1
                             r = run_case(case)
